@@ -26,6 +26,8 @@ pub mod pidex {
     impl PidLike for StreamPID {}
 }
 mod wire;
+#[cfg(feature = "devices")]
+mod world;
 
 pub const W_PANIC: i64 = 99;
 pub const W_TYPE: i64 = 98;
@@ -42,6 +44,8 @@ fn run_case(case: &[i64]) -> Vec<i64> {
         4 => streams::run_strm_case(&case[1..]),
         5 => settable::run_sett_case(&case[1..]),
         6 => mp::run_mp_case(&case[1..]),
+        #[cfg(feature = "devices")]
+        7 => world::run_world_case(&case[1..]),
         _ => vec![W_BAD],
     }));
     match r {
